@@ -100,8 +100,9 @@ StepFree(e) ==
 EndLine(e) ==
     /\ UNCHANGED ModelVars
     /\ UNCHANGED <<scen, confOK, given>>
-    /\ Complain((IF e.note # "" THEN {"harness.trouble"} ELSE {})
-                \cup StreamRules(e.obs) \cup EndRules(e.obs), [w |-> "-", g |-> "end", got |-> ""])
+    \* (a run that did not come to rest within the runner's patience is not judged by the rules of the state at rest)
+    /\ Complain(IF e.note # "" THEN {"harness.trouble"} \cup StreamRules(e.obs)
+                ELSE StreamRules(e.obs) \cup EndRules(e.obs), [w |-> "-", g |-> "end", got |-> ""])
 
 TInit ==
     /\ Init
